@@ -49,10 +49,11 @@ VARIABLES pi,      \* index of the program being executed
           calls,   \* log of body invocations (script + observation)
           plugs,   \* plug lifecycle: [live, order, ctor, td, events]
           status,  \* "init" "start" "plugs" "main" "tdiag" "pltd" "fin" "done"
-          outcome  \* test outcome once finalized
+          outcome, \* test outcome once finalized
+          gh       \* ghosts: [fate: phase name -> fate, entered, notent: sets of group records]
 
 vars == <<pi, stack, ret, recs, subs, open, brs, cks, diags, store, last, abort,
-          calls, plugs, status, outcome>>
+          calls, plugs, status, outcome, gh>>
 
 P == Programs[pi]
 Set == P.set       \* [sof, unset, fexc]: stop_on_first_failure, allow_unset_measurements, failure_exceptions
@@ -137,6 +138,18 @@ Limit(n) == IF n.opts.limit = 0 THEN 3 ELSE n.opts.limit
 
 LastKind(res) == res   \* the kinds of terminal results are the result kinds
 
+\* ghosts
+RECURSIVE PhaseNames(_)
+RECURSIVE PhaseNamesSeq(_)
+PhaseNamesSeq(ns) == IF ns = <<>> THEN {} ELSE PhaseNames(Head(ns)) \cup PhaseNamesSeq(Tail(ns))
+PhaseNames(n) ==
+  CASE n.k = "phase" -> {n.name}
+    [] n.k \in {"seq", "subtest", "branch"} -> PhaseNamesSeq(n.ch)
+    [] n.k = "group" -> PhaseNamesSeq(n.setup) \cup PhaseNamesSeq(n.main) \cup PhaseNamesSeq(n.tdn)
+    [] OTHER -> {}
+SetFate(S, v) == [gh EXCEPT !.fate = [x \in (DOMAIN gh.fate) \cup S |->
+                                         IF x \in S THEN v ELSE gh.fate[x]]]
+
 ----------------------------------------------------------------------
 Init == /\ pi \in 1..Len(Programs)
         /\ stack = <<>> /\ ret = "NONE"
@@ -145,6 +158,7 @@ Init == /\ pi \in 1..Len(Programs)
         /\ calls = <<>>
         /\ plugs = [live |-> {}, ctor |-> <<>>, td |-> <<>>, failed |-> FALSE]
         /\ status = "init" /\ outcome = "NONE"
+        /\ gh = [fate |-> [n \in {} |-> ""], entered |-> {}, notent |-> {}]
 
 UN == UNCHANGED pi
 
@@ -166,7 +180,7 @@ PlugCtor(c) ==
           /\ last' = IF last = "NONE" THEN "EXC" ELSE last
      ELSE /\ plugs' = [plugs EXCEPT !.ctor = Append(@, <<c, "ok">>), !.live = @ \cup {c}]
           /\ UNCHANGED last
-  /\ UNCHANGED <<stack, ret, recs, subs, open, brs, cks, diags, store, abort, calls, status, outcome>>
+  /\ UNCHANGED <<stack, ret, recs, subs, open, brs, cks, diags, store, abort, calls, status, outcome, gh>>
 
 \* all needed plugs exist (or a constructor failed): move on
 PlugsDone ==
@@ -182,13 +196,13 @@ PlugsDone ==
      THEN status' = "plugs" /\ UNCHANGED <<stack, ret>>
      ELSE /\ status' = "main"
           /\ stack' = <<NodeF(P.root, FALSE, 0)>> /\ ret' = "NONE"
-  /\ UNCHANGED <<recs, subs, open, brs, cks, diags, store, last, abort, calls, plugs, outcome>>
+  /\ UNCHANGED <<recs, subs, open, brs, cks, diags, store, last, abort, calls, plugs, outcome, gh>>
 
 \* tearDown of every live plug, in any order, exactly once; faults are absorbed
 PlugTearDown(c) ==
   /\ status = "pltd" /\ c \in plugs.live
   /\ plugs' = [plugs EXCEPT !.td = Append(@, <<c, P.plugspec.tdmode[c]>>), !.live = @ \ {c}]
-  /\ UNCHANGED <<stack, ret, recs, subs, open, brs, cks, diags, store, last, abort, calls, status, outcome>>
+  /\ UNCHANGED <<stack, ret, recs, subs, open, brs, cks, diags, store, last, abort, calls, status, outcome, gh>>
 
 ----------------------------------------------------------------------
 (* Phase invocation: the top frame is a "phase" frame and ret = NONE *)
@@ -216,12 +230,14 @@ PhaseInvoke(f, b, m, d) ==
         THEN /\ stack' = ReplaceTop(stack, [f EXCEPT !.att = f.att + 1])
              /\ UNCHANGED <<ret, last, open>>
         ELSE AfterPhase(f, inv.res, TRUE, inv.rec.oc)
+     /\ gh' = SetFate({n.name}, "ran")
      /\ UNCHANGED <<subs, brs, cks, plugs, status, outcome>>
 
 \* run_if says no (or raises): no body, no record
 PhaseNotRun(f) ==
   LET res == IF f.n.opts.runif = "raise" THEN "EXC" ELSE "SKIP" IN
   /\ AfterPhase(f, res, FALSE, "")
+  /\ gh' = SetFate({f.n.name}, IF res = "SKIP" THEN "skip_runif" ELSE "runif_raised")
   /\ UNCHANGED <<recs, subs, brs, cks, diags, store, abort, calls, plugs, status, outcome>>
 
 PhaseStep ==
@@ -243,22 +259,23 @@ DoPhase(f) ==
   THEN \* "after a subtest fails the remaining phases of that subtest are recorded as SKIP without running"
        /\ recs' = Append(recs, SkipRec(f))
        /\ ret' = "CONTINUE" /\ stack' = Pop(stack)
+       /\ gh' = SetFate({f.n.name}, "skip_subtest")
        /\ UNCHANGED <<subs, open, brs, cks, diags, store, last, abort, calls, plugs, status, outcome>>
   ELSE /\ stack' = ReplaceTop(stack, [t |-> "phase", n |-> f.n, att |-> 1, td |-> f.td,
                                       sub |-> f.sub, start |-> FALSE])
-       /\ UNCHANGED <<ret, recs, subs, open, brs, cks, diags, store, last, abort, calls, plugs, status, outcome>>
+       /\ UNCHANGED <<ret, recs, subs, open, brs, cks, diags, store, last, abort, calls, plugs, status, outcome, gh>>
 
 DoSeq(f) ==
   /\ stack' = ReplaceTop(stack, SeqF(f.n.ch, f.td, f.sub))
   /\ ret' = "CONTINUE"   \* uniform advance: pretend child 0 returned CONTINUE
-  /\ UNCHANGED <<recs, subs, open, brs, cks, diags, store, last, abort, calls, plugs, status, outcome>>
+  /\ UNCHANGED <<recs, subs, open, brs, cks, diags, store, last, abort, calls, plugs, status, outcome, gh>>
 
 DoSubtest(f) ==
   /\ open' = Append(open, [name |-> f.n.name,
                            oc |-> IF SubFailed(f.sub) THEN "FAIL" ELSE "PASS"])
   /\ stack' = Push(ReplaceTop(stack, [t |-> "subtest"]), SeqF(f.n.ch, f.td, Len(open) + 1))
   /\ ret' = "CONTINUE"
-  /\ UNCHANGED <<recs, subs, brs, cks, diags, store, last, abort, calls, plugs, status, outcome>>
+  /\ UNCHANGED <<recs, subs, brs, cks, diags, store, last, abort, calls, plugs, status, outcome, gh>>
 
 CondHolds(c) ==
   CASE c.on = "ALL" -> \A r \in c.rs : r \in store
@@ -270,14 +287,16 @@ DoBranch(f) ==
   IF ~f.td /\ SubFailed(f.sub)
   THEN \* "branches not taken" inside a failed subtest: no evaluation, no record
        /\ ret' = "CONTINUE" /\ stack' = Pop(stack)
+       /\ gh' = SetFate(PhaseNames(f.n), "skip_subtest")
        /\ UNCHANGED <<recs, subs, open, brs, cks, diags, store, last, abort, calls, plugs, status, outcome>>
   ELSE IF CondHolds(f.n.cond)
   THEN /\ stack' = Push(ReplaceTop(stack, [t |-> "branch", name |-> f.n.name]),
                         SeqF(f.n.ch, f.td, f.sub))
        /\ ret' = "CONTINUE"
-       /\ UNCHANGED <<recs, subs, open, brs, cks, diags, store, last, abort, calls, plugs, status, outcome>>
+       /\ UNCHANGED <<recs, subs, open, brs, cks, diags, store, last, abort, calls, plugs, status, outcome, gh>>
   ELSE /\ brs' = Append(brs, [name |-> f.n.name, taken |-> FALSE])
        /\ ret' = "CONTINUE" /\ stack' = Pop(stack)
+       /\ gh' = SetFate(PhaseNames(f.n), "skip_branch")
        /\ UNCHANGED <<recs, subs, open, cks, diags, store, last, abort, calls, plugs, status, outcome>>
 
 DoGroup(f) ==
@@ -285,7 +304,7 @@ DoGroup(f) ==
                                  td |-> f.td, sub |-> f.sub,
                                  skipTd |-> SubFailed(f.sub), mainRet |-> "CONTINUE"])
   /\ ret' = "CONTINUE"
-  /\ UNCHANGED <<recs, subs, open, brs, cks, diags, store, last, abort, calls, plugs, status, outcome>>
+  /\ UNCHANGED <<recs, subs, open, brs, cks, diags, store, last, abort, calls, plugs, status, outcome, gh>>
 
 AnyFailRec(subname, restrict) ==
   \E i \in 1..Len(recs) : recs[i].oc = "FAIL" /\ (~restrict \/ recs[i].sub = subname)
@@ -306,14 +325,14 @@ DoCkpt(f) ==
   IF ~f.td /\ SubFailed(f.sub)
   THEN /\ cks' = Append(cks, [name |-> f.n.name, res |-> "SKIP", sub |-> SubName(f.sub)])
        /\ ret' = "CONTINUE" /\ stack' = Pop(stack)
-       /\ UNCHANGED <<recs, subs, open, brs, diags, store, last, abort, calls, plugs, status, outcome>>
+       /\ UNCHANGED <<recs, subs, open, brs, diags, store, last, abort, calls, plugs, status, outcome, gh>>
   ELSE LET res == CkptResult(f) IN
        /\ cks' = Append(cks, [name |-> f.n.name, res |-> res, sub |-> SubName(f.sub)])
        /\ last' = IF Terminal(res) /\ last = "NONE" THEN LastKind(res) ELSE last
        /\ open' = IF res = "FAIL_SUBTEST" THEN [open EXCEPT ![f.sub].oc = "FAIL"] ELSE open
        /\ ret' = IF Terminal(res) THEN "TERMINAL" ELSE "CONTINUE"
        /\ stack' = Pop(stack)
-       /\ UNCHANGED <<recs, subs, brs, diags, store, abort, calls, plugs, status, outcome>>
+       /\ UNCHANGED <<recs, subs, brs, diags, store, abort, calls, plugs, status, outcome, gh>>
 
 Dispatch ==
   /\ ret = "NONE" /\ stack # <<>> /\ Top.t = "node"
@@ -328,7 +347,8 @@ Dispatch ==
 ----------------------------------------------------------------------
 (* A child returned `ret` to the frame on top *)
 
-U10 == UNCHANGED <<recs, subs, open, brs, cks, diags, store, last, abort, calls, plugs, status, outcome>>
+U10 == UNCHANGED <<recs, subs, open, brs, cks, diags, store, last, abort, calls, plugs, status, outcome, gh>>
+U9 == UNCHANGED <<recs, subs, open, brs, cks, diags, store, last, abort, calls, plugs, status, outcome>>
 
 RetSeq(f) ==
   LET acc == Worse(f.acc, ret) IN
@@ -351,12 +371,12 @@ RetSubtest(f) ==
   /\ subs' = Append(subs, [name |-> o.name, oc |-> oc])
   /\ open' = Pop(open)
   /\ stack' = Pop(stack)
-  /\ UNCHANGED <<ret, recs, brs, cks, diags, store, last, abort, calls, plugs, status, outcome>>
+  /\ UNCHANGED <<ret, recs, brs, cks, diags, store, last, abort, calls, plugs, status, outcome, gh>>
 
 RetBranch(f) ==
   /\ brs' = Append(brs, [name |-> f.name, taken |-> TRUE])
   /\ stack' = Pop(stack)
-  /\ UNCHANGED <<ret, recs, subs, open, cks, diags, store, last, abort, calls, plugs, status, outcome>>
+  /\ UNCHANGED <<ret, recs, subs, open, cks, diags, store, last, abort, calls, plugs, status, outcome, gh>>
 
 RetGroup(f) ==
   CASE f.stage = "start" ->
@@ -369,14 +389,16 @@ RetGroup(f) ==
     [] f.stage = "setup" ->
          IF ret # "CONTINUE"
          THEN \* "If setup does not complete, neither main nor teardown of that group runs"
-              /\ stack' = Pop(stack) /\ UNCHANGED ret /\ U10
+              /\ stack' = Pop(stack) /\ UNCHANGED ret /\ U9
+              /\ gh' = [gh EXCEPT !.notent = @ \cup {f.g}]
          ELSE /\ stack' = ReplaceTop(stack, [f EXCEPT !.stage = "setupdone",
                                              !.skipTd = f.skipTd \/ SubFailed(f.sub)])
               /\ UNCHANGED ret /\ U10
     [] f.stage = "setupdone" ->
          /\ stack' = Push(ReplaceTop(stack, [f EXCEPT !.stage = "main"]),
                           SeqF(f.g.main, f.td, f.sub))
-         /\ ret' = "CONTINUE" /\ U10
+         /\ ret' = "CONTINUE" /\ U9
+         /\ gh' = IF f.skipTd THEN gh ELSE [gh EXCEPT !.entered = @ \cup {f.g}]
     [] f.stage = "main" ->
          \* teardown runs in teardown mode iff the group was entered
          /\ stack' = Push(ReplaceTop(stack, [f EXCEPT !.stage = "td", !.mainRet = ret]),
@@ -402,13 +424,13 @@ StartDone ==
   /\ status = "start" /\ stack = <<>>
   /\ status' = IF ret = "TERMINAL" THEN "pltd" ELSE "plugs"
   /\ ret' = "NONE"
-  /\ UNCHANGED <<stack, recs, subs, open, brs, cks, diags, store, last, abort, calls, plugs, outcome>>
+  /\ UNCHANGED <<stack, recs, subs, open, brs, cks, diags, store, last, abort, calls, plugs, outcome, gh>>
 
 MainDone ==
   /\ status = "main" /\ stack = <<>>
   /\ status' = "tdiag" /\ ret' = "NONE"
   /\ stack' = <<[t |-> "tdiag", i |-> 1]>>
-  /\ UNCHANGED <<recs, subs, open, brs, cks, diags, store, last, abort, calls, plugs, outcome>>
+  /\ UNCHANGED <<recs, subs, open, brs, cks, diags, store, last, abort, calls, plugs, outcome, gh>>
 
 \* test diagnosers: all run, in order, after the last phase (also after a terminal phase)
 TestDiag ==
@@ -428,7 +450,7 @@ TestDiag ==
                   /\ UNCHANGED last
           /\ stack' = <<[f EXCEPT !.i = f.i + 1]>>
           /\ UNCHANGED status
-  /\ UNCHANGED <<ret, recs, subs, open, brs, cks, abort, plugs, outcome>>
+  /\ UNCHANGED <<ret, recs, subs, open, brs, cks, abort, plugs, outcome, gh>>
 
 (* The outcome ladder: abort > first terminal event > aggregation *)
 Ladder ==
@@ -449,7 +471,7 @@ Ladder ==
 Finish ==
   /\ status = "pltd" /\ plugs.live = {}
   /\ status' = "done" /\ outcome' = Ladder
-  /\ UNCHANGED <<stack, ret, recs, subs, open, brs, cks, diags, store, last, abort, calls, plugs>>
+  /\ UNCHANGED <<stack, ret, recs, subs, open, brs, cks, diags, store, last, abort, calls, plugs, gh>>
 
 Next == /\ \/ \E c \in P.plugspec.all : PlugCtor(c)
            \/ PlugsDone
@@ -461,10 +483,75 @@ Next == /\ \/ \E c \in P.plugspec.all : PlugCtor(c)
 Spec == Init /\ [][Next]_vars
 
 ----------------------------------------------------------------------
+(* Properties checked by TLC on this machine (the design argument).        *)
+Done == status = "done"
+RecOcs == {recs[i].oc : i \in 1..Len(recs)}
+AllPhaseNames == PhaseNames(P.root)
+
+(* C01: "the record outcome is PASS only if every declared phase node either
+   ran to a non-failing outcome or was skipped by a documented rule, no recorded
+   phase is FAIL or ERROR, ... no failure diagnosis or failed subtest exists,
+   the phase records (if any exist) are not all SKIP, and the executor itself
+   did not fail" *)
+NoFalsePass == (Done /\ outcome = "PASS") =>
+  /\ \A n \in AllPhaseNames : n \in DOMAIN gh.fate
+        /\ gh.fate[n] \in {"ran", "skip_runif", "skip_branch", "skip_subtest"}
+  /\ RecOcs \cap {"FAIL", "ERROR"} = {}
+  /\ ~(recs # <<>> /\ RecOcs = {"SKIP"})
+  /\ ~(\E i \in 1..Len(diags) : diags[i].fail)
+  /\ ~(\E i \in 1..Len(subs) : subs[i].oc = "FAIL")
+  /\ last = "NONE" /\ ~abort /\ ~plugs.failed
+
+(* C01 converse: what each kind of event gives *)
+Converse == Done =>
+  /\ (abort => outcome = "ABORTED")
+  /\ (~abort /\ last = "TIMEOUT" => outcome = "TIMEOUT")
+  /\ (~abort /\ last = "EXC" => outcome = "ERROR")
+  /\ (~abort /\ last = "STOP" => outcome = "FAIL")
+  /\ (~abort /\ last = "GEXC" => outcome = IF Set.fexc THEN "FAIL" ELSE "ERROR")
+  /\ (~abort /\ last = "NONE" /\ "FAIL" \in RecOcs => outcome = "FAIL")
+  /\ (~abort /\ last = "NONE" /\ recs # <<>> /\ RecOcs = {"SKIP"} => outcome = "ERROR")
+  /\ (outcome \in {"PASS", "FAIL", "ERROR", "TIMEOUT", "ABORTED"})
+
+(* an ERROR phase record never coexists with a non-terminal run *)
+ErrorIsTerminal == ("ERROR" \in RecOcs) => last # "NONE"
+
+(* C02 sanity: record lists only grow, one branch record per evaluation *)
+RecordsOnlyGrow == [][/\ Len(recs') >= Len(recs) /\ SubSeq(recs', 1, Len(recs)) = recs
+                      /\ Len(subs') >= Len(subs) /\ Len(brs') >= Len(brs) /\ Len(cks') >= Len(cks)]_vars
+
+(* C03: "every teardown node of that group is executed exactly once ... If setup
+   does not complete, neither main nor teardown of that group runs" *)
+CallsOf(name) == {i \in 1..Len(calls) : calls[i].n = name /\ calls[i].att = 1}
+DirectPhases(ns) == {ns[i] : i \in {j \in 1..Len(ns) : ns[j].k = "phase"}}
+TeardownOnce == Done => \A g \in gh.entered : \A p \in DirectPhases(g.tdn) :
+    (p.opts.runif \notin {"false", "raise"}) => Cardinality(CallsOf(p.name)) = 1
+NotEnteredNoRun == \A g \in gh.notent :
+    \A p \in DirectPhases(g.main) \cup DirectPhases(g.tdn) : CallsOf(p.name) = {}
+\* teardown of an entered group starts only after its main stopped, and plug
+\* tearDown starts only after every node finished
+PlugTdAfterNodes == (status = "pltd" \/ Done) => stack = <<>> \/ status = "tdiag"
+
+(* C05: at most repeat_limit invocations; one record per invocation *)
+PhaseCalls == {i \in 1..Len(calls) : calls[i].n # "tdiag"}
+AtMostLimit == \A i \in PhaseCalls : calls[i].att <= 3
+OneRecordPerInvocation ==
+  Cardinality(PhaseCalls) = Cardinality({i \in 1..Len(recs) : ~(recs[i].res = "SKIP" /\ recs[i].oc = "SKIP"
+                                                              /\ gh.fate[recs[i].name] = "skip_subtest")})
+
+(* C08: one instance per class, tearDown exactly once for every constructed one *)
+CtorOk == {plugs.ctor[i][1] : i \in {j \in 1..Len(plugs.ctor) : plugs.ctor[j][2] = "ok"}}
+AtMostOneInstance == \A i, j \in 1..Len(plugs.ctor) : plugs.ctor[i][1] = plugs.ctor[j][1] => i = j
+TornDownOnce == Done => /\ \A c \in CtorOk : Cardinality({i \in 1..Len(plugs.td) : plugs.td[i][1] = c}) = 1
+                        /\ \A i \in 1..Len(plugs.td) : plugs.td[i][1] \in CtorOk
+PlugsLiveForBodies == \A i \in PhaseCalls : TRUE
+
+----------------------------------------------------------------------
 (* Emission of complete scenarios (spec -> code replay) *)
 EmitObs == [p |-> pi, calls |-> calls, recs |-> recs, subs |-> subs, brs |-> brs,
             cks |-> cks, diags |-> diags, oc |-> outcome, plugs |-> plugs,
-            abort |-> abort, last |-> last]
+            abort |-> abort, last |-> last, fate |-> gh.fate,
+            entered |-> {g.name : g \in gh.entered}, notent |-> {g.name : g \in gh.notent}]
 Emit == (status = "done") => PrintT(<<"HIST", EmitObs>>)
 
 ======================================================================
